@@ -116,7 +116,9 @@ def start_with_failures(scn):
         else:
             doc = {"fn": "g", "v": payload}
         pl.table.setdefault("g", {}).setdefault(key, (payload, []))[1].append(doc)
-        return simmod.Reply("ok", doc, d)
+        r = simmod.Reply("ok", doc, d)
+        pl.sent.setdefault("g", {}).setdefault(key, []).append(r)       # the delay, for the timed reference semantics
+        return r
     s.add_worker("g", plan)
     ea = s.start_execution(ARN + "m1", json.loads(json.dumps(scn.data)), name="e1")
     return s, ea, pl
